@@ -14,6 +14,7 @@ import CelloProofs.Lemmas.Cmp
 import CelloProofs.Lemmas.CmpVal
 import CelloProofs.Lemmas.CmpObj
 import CelloProofs.Lemmas.CmpFloat
+import CelloProofs.Lemmas.CmpSrc
 
 set_option linter.unusedSimpArgs false
 
@@ -69,6 +70,129 @@ theorem C09_bytes :
   rw [this, bytesCmp_lt_iff]
 
 example : bytesCmp [0x61, 0x62] [0x61, 0x62, 0x63] = -1 ∧ bytesCmp [0x61, 0xff] [0x61, 0x01] = 1 ∧ bytesCmp [] [] = 0 := by decide
+
+/-! ### String_Cmp, Type_Cmp and `cmp` of Cmp.c as PROGRAMS translated from the source (extension round) -/
+
+/-- **C09 (String), over the translated String_Cmp.** For every libc whose `strcmp` meets ISO C 7.24.4 (the SIGN of the first
+    differing pair of unsigned bytes; any magnitude), `String_Cmp` — as translated from src/String.c on every run — orders
+    NUL-free strings as their unsigned bytes do: a lawful strict total order, negative exactly when `a < b` lexicographically,
+    0 only for equal strings; and it casts nothing before it compares.  (Swapped operands, a negated result, a result cast to
+    `char`, … are different programs for which this fails.) -/
+theorem C09_string_cmp_source (ops : CelloGen.Cmp.StrOps (List UInt8)) (h : StrcmpSpec ops) :
+    StrictCmpOn NulFree Eq (strSrcCmp ops) ∧
+    (∀ a b, NulFree a → NulFree b → sgn (strSrcCmp ops a b) = bytesCmp a b ∧
+      (strSrcCmp ops a b < 0 ↔ a < b) ∧ (0 < strSrcCmp ops a b ↔ b < a)) ∧
+    CelloGen.Cmp.stringCmpCasts = [] := by
+  have hs : ∀ a b, NulFree a → NulFree b → sgn (strSrcCmp ops a b) = bytesCmp a b := fun a b ha hb => h.sign a b ha hb
+  refine ⟨strictCmpOn_of_sgn bytesCmp_strict hs, fun a b ha hb => ⟨hs a b ha hb, ?_, ?_⟩, rfl⟩
+  · rw [← C09_bytes.2.1 a b, ← hs a b ha hb, sgn_neg_iff']
+  · rw [← C09_bytes.2.2 a b, ← hs a b ha hb, sgn_pos_iff']
+
+/-- **C09 (Type), over the translated Type_Cmp**: the same for the names of two Types; `obj` is cast to Type first (anything
+    else raises ValueError: `cmpTop`'s arm) -/
+theorem C09_type_cmp_source (ops : CelloGen.Cmp.StrOps (List UInt8)) (h : StrcmpSpec ops) :
+    StrictCmpOn NulFree Eq (typeSrcCmp ops) ∧
+    (∀ a b, NulFree a → NulFree b → sgn (typeSrcCmp ops a b) = bytesCmp a b ∧
+      (typeSrcCmp ops a b < 0 ↔ a < b) ∧ (0 < typeSrcCmp ops a b ↔ b < a)) ∧
+    CelloGen.Cmp.typeCmpCasts = [("obj", "Type")] := by
+  have hs : ∀ a b, NulFree a → NulFree b → sgn (typeSrcCmp ops a b) = bytesCmp a b := fun a b ha hb => h.sign a b ha hb
+  refine ⟨strictCmpOn_of_sgn bytesCmp_strict hs, fun a b ha hb => ⟨hs a b ha hb, ?_, ?_⟩, rfl⟩
+  · rw [← C09_bytes.2.1 a b, ← hs a b ha hb, sgn_neg_iff']
+  · rw [← C09_bytes.2.2 a b, ← hs a b ha hb, sgn_pos_iff']
+
+/-- the hypothesis is met by a libc that answers -1/0/1 and by one that answers the byte difference (glibc's C version) … -/
+example : StrcmpSpec signStrOps ∧ StrcmpSpec diffStrOps ∧ MemcmpSpec signMemcmp :=
+  ⟨strcmpSpec_sign, strcmpSpec_diff, memcmpSpec_sign⟩
+
+/-- … and NOT by a `strcmp` that reads `char` as signed: "a\xff" against "a\x01" comes out negative, and with it the
+    translated String_Cmp puts bytes above 127 below ASCII -/
+theorem C09_signed_char_strcmp_refuted :
+    ¬ StrcmpSpec signedCharStrOps ∧ strSrcCmp signedCharStrOps [0x61, 0xff] [0x61, 0x01] < 0 ∧
+    bytesCmp [0x61, 0xff] [0x61, 0x01] = 1 ∧ strSrcCmp diffStrOps [0x61, 0xff] [0x61, 0x01] = 254 ∧
+    strSrcCmp signStrOps [0x61, 0xff] [0x61, 0x01] = 1 := by
+  refine ⟨fun h => ?_, by decide, by decide, by decide, by decide⟩
+  have := h.sign [0x61, 0xff] [0x61, 0x01] (by simp [NulFree]) (by simp [NulFree])
+  revert this; decide
+
+/-- **`cmp` of src/Cmp.c, as translated, for ANY object system**: an object whose type has a Cmp instance with a `cmp` member
+    gets exactly the result of the call through it; otherwise two objects of one type of non-zero size get `memcmp` over
+    that size, operands in order; otherwise TypeError is raised — nothing else, and never a silent 0. -/
+theorem C09_cmp_dispatch_source {O : Type} (ops : CelloGen.Cmp.DispOps O) (self obj : O) :
+    (ops.hasInstance self = true → ops.hasCmp self = true →
+      CelloGen.Cmp.cmpDispatch ops self obj = .ret (ops.callCmp self self obj)) ∧
+    ((ops.hasInstance self = false ∨ ops.hasCmp self = false) → ops.typeOf self = ops.typeOf obj →
+      ops.sizeOf (ops.typeOf self) ≠ 0 →
+      CelloGen.Cmp.cmpDispatch ops self obj = .ret (ops.memcmp self obj (ops.sizeOf (ops.typeOf self)))) ∧
+    ((ops.hasInstance self = false ∨ ops.hasCmp self = false) →
+      (ops.typeOf self ≠ ops.typeOf obj ∨ ops.sizeOf (ops.typeOf self) = 0) →
+      CelloGen.Cmp.cmpDispatch ops self obj = .throw "TypeError") := by
+  refine ⟨fun h1 h2 => ?_, fun h1 h2 h3 => ?_, fun h1 h2 => ?_⟩
+  · simp [CelloGen.Cmp.cmpDispatch, h1, h2]
+  · have h3' : ops.sizeOf (ops.typeOf obj) ≠ 0 := h2 ▸ h3
+    rcases h1 with h1 | h1 <;> simp [CelloGen.Cmp.cmpDispatch, h1, h2] <;> exact h3'
+  · rcases h1 with h1 | h1 <;> rcases h2 with h2 | h2 <;> simp [CelloGen.Cmp.cmpDispatch, h1, h2]
+
+/-- **C09 (plain structs), over the translated `cmp`.** On the value universe (`valDispOps`: the struct types without a Cmp
+    instance, `size` = `plainSize`), for every libc whose `memcmp` meets ISO C: the translated `cmp` with a plain struct as
+    `self` is exactly the model's `cmpTop` — the byte-wise order of the two structs when both are of one type of non-zero size,
+    TypeError otherwise (other type, size 0, or `obj` not a plain struct at all); every other `self` goes to its instance. -/
+theorem C09_default_cmp_source (fops : FloatOps UInt64) (mc : List UInt8 → List UInt8 → Nat → BitVec 32) (hm : MemcmpSpec mc)
+    (inst : Val → Val → BitVec 32) :
+    (∀ t xs b, (Val.plain t xs).valid = true → b.valid = true →
+      srcCmpTop mc inst (.plain t xs) b = cmpTop fops (.plain t xs) b) ∧
+    (∀ a b, a.ctype ≠ 4 → CelloGen.Cmp.cmpDispatch (valDispOps mc inst) a b = .ret (inst a b)) := by
+  refine ⟨fun t xs b ha hb => ?_, fun a b h => ?_⟩
+  · simp only [Val.valid, Bool.and_eq_true, decide_eq_true_eq, beq_iff_eq] at ha
+    have hsz := plainSize_bv_ne_zero t
+    have htn := plainSize_bv_toNat t
+    have e : ((100 + t : Nat) : Int) - 100 = (t : Int) := by omega
+    have e2 : (100 : Int) ≤ ((100 + t : Nat) : Int) := by omega
+    have c0 : ¬ ((100 : Int) + t = 0) := by omega
+    have c1 : ¬ ((100 : Int) + t = 1) := by omega
+    have c2 : ¬ ((100 : Int) + t = 2) := by omega
+    have c3 : ¬ ((100 : Int) + t = 3) := by omega
+    have c5 : ¬ ((100 : Int) + t = 5) := by omega
+    have c6 : ¬ ((100 : Int) + t = 6) := by omega
+    have c7 : ¬ ((100 : Int) + t = 7) := by omega
+    have c8 : ¬ ((100 : Int) + t = 8) := by omega
+    cases b with
+    | plain t' ys =>
+      simp only [Val.valid, Bool.and_eq_true, decide_eq_true_eq, beq_iff_eq] at hb
+      simp only [srcCmpTop, cmpTop, CelloGen.Cmp.cmpDispatch, valDispOps, Val.ctype, Val.etype, Val.bytesOf]
+      simp only [bne_self_eq_false, Bool.false_and, Bool.false_eq_true, if_false, e, e2, if_true, Int.toNat_natCast]
+      by_cases ht : t = t'
+      · subst ht
+        by_cases hz : plainSize t = 0
+        · have hz0 : (BitVec.ofNat 64 (plainSize t) != 0) = false := by rw [hsz]; simp [hz]
+          simp [hz0, hz, outcomeRes]
+        · have hz' : (BitVec.ofNat 64 (plainSize t) != 0) = true := by rw [hsz]; simpa using hz
+          have h1 := hm.sign xs ys (plainSize t) (by omega) (by omega)
+          have tx : xs.take (plainSize t) = xs := by rw [← ha.2]; exact List.take_length
+          have ty : ys.take (plainSize t) = ys := by rw [← hb.2]; exact List.take_length
+          rw [tx, ty] at h1
+          have hz'' : BitVec.ofNat 64 (plainSize t) ≠ 0#64 := by simpa using hz'
+          simp [hz'', htn, h1, hz, outcomeRes]
+      · have hne : (((100 + t : Nat) : Int) == ((100 + t' : Nat) : Int)) = false := by
+          rw [beq_eq_false_iff_ne]; omega
+        simp only [hne, Bool.false_and, Bool.false_eq_true, if_false, outcomeRes, ht, false_and]
+    | int _ | flt _ | str _ | typ _ | tree _ =>
+      simp only [srcCmpTop, cmpTop, CelloGen.Cmp.cmpDispatch, valDispOps, Val.ctype, Val.etype]
+      simp [c0, c1, c2, c3, c5, c6, c7, c8, outcomeRes]
+    | seq k _ =>
+      cases k <;> simp only [srcCmpTop, cmpTop, CelloGen.Cmp.cmpDispatch, valDispOps, Val.ctype, Val.etype] <;>
+        simp [c0, c1, c2, c3, c5, c6, c7, c8, outcomeRes]
+  · cases a <;> simp_all [CelloGen.Cmp.cmpDispatch, valDispOps, Val.ctype]
+
+/-- non-vacuity: two structs of the 4-byte type compared through the translated `cmp` (bytes above 127 are large), the
+    size-0 type and two different types raise, an Int goes to its instance; the driver's second opinion is defined there -/
+example :
+    srcCmpTop signMemcmp (fun _ _ => 0) (.plain 1 [0xff, 0, 0, 0]) (.plain 1 [1, 0, 0, 0]) = .ok 1 ∧
+    srcCmpTop signMemcmp (fun _ _ => 0) (.plain 1 [1, 0, 0, 0]) (.plain 1 [1, 0, 0, 0x80]) = .ok (-1) ∧
+    srcCmpTop signMemcmp (fun _ _ => 0) (.plain 0 []) (.plain 0 []) = .exc "TypeError" ∧
+    srcCmpTop signMemcmp (fun _ _ => 0) (.plain 1 [0, 0, 0, 0]) (.plain 2 [0, 0, 0, 0]) = .exc "TypeError" ∧
+    srcCmpTop signMemcmp (fun _ _ => 0) (.plain 1 [0, 0, 0, 0]) (.int 0) = .exc "TypeError" ∧
+    dispatchArm (.int 0) (.int 1) = 0 ∧ dispatchArm (.plain 3 []) (.plain 3 []) = 1 ∧ dispatchArm (.plain 0 []) (.plain 0 []) = 2 ∧
+    srcSecondOpinion (.str [0x61, 0xff]) (.str [0x61]) = some (.ok 1) := by decide
 
 /-! ### Array / List / Tuple: the induced lexicographic order -/
 
